@@ -54,7 +54,15 @@ def k_dump_sign(sign: int, loaded_signed: int, keyid: int, fail: bool, sort: boo
         raised = False
     except OpenPGPSigningFailure:
         raised = True
+    # a second dump of the same object (a loader may save more than once; a watermark
+    # rename saves the top-level Manifest twice in one run) takes the same decision
+    out2 = io.StringIO()
+    env2 = Env(False)
+    m.dump(out2, sign_openpgp=s_opt, openpgp_keyid=kid, openpgp_env=env2, sort=sort)
     with sym.untraced():
+        want2 = bool(s_opt) if s_opt is not None else bool(ls)
+        if bool(env2.calls) != want2 or out2.getvalue().startswith('-----BEGIN') != want2:
+            return False, True
         ref = ManifestFile()
         ref.entries = list(m.entries)
         ref.dump(plain, sign_openpgp=False)
@@ -112,6 +120,7 @@ class Ctx:
 def s_sign(v):
     c = Ctx()
     fs = c.fs = ModelFS(written_sizes=[200, 300, 400, 500])
+    fs.render = True        # all values are concrete here: the real dump() runs in full
     c.top_name = ('Manifest', 'Manifest.gz')[v.choice('top_name', 2)]
     fs.add_file('a', size=1, digest='A')
     fs.add_file('sub/c', size=2, digest='C')
